@@ -542,8 +542,12 @@ def run_batch(args):
                     res["accepted"] += 1
                     if m_ok:
                         sc_cases.append((rname, doc, req, sc))
-                    if first_valid_sc is None and rname.startswith("random"):
-                        first_valid_sc = (doc, sc)
+                    if rname.startswith("random"):
+                        # the document explored end to end: the one with the most host-firewall entries (deny lists are
+                        # where "every rule written in the file is enforced" has most to say)
+                        nfw = sum(len(c.get("firewall") or {}) for c in doc.get("host_configurations", {}).values())
+                        if first_valid_sc is None or nfw > first_valid_sc[2]:
+                            first_valid_sc = (doc, sc, nfw)
             else:
                 res["mutants"] += 1
                 res["rules"][rname] += 1
@@ -595,13 +599,13 @@ def run_batch(args):
         # end-to-end: the environment built from a loaded file behaves like the model on it
         if first_valid_sc is not None:
             import suite_dyn
-            doc, sc = first_valid_sc
+            doc, sc = first_valid_sc[:2]
             try:
                 C.scenario_lines(sc)
                 np.random.rand = suite_dyn.DR
                 r2 = dict(frame_violations=[], cross_mode=[])
                 sc._shape = "loaded-yaml"
-                queries, records, meta, nstates, envF = suite_dyn.explore(sc, 40 if tier == "quick" else 150, r2)
+                queries, records, meta, nstates, envF = suite_dyn.explore(sc, 60 if tier == "quick" else 150, r2)
                 lines = C.scenario_lines(sc)
                 outq = C.run_driver(lines + queries)
                 bad = [(q, rec, C.parse_reply(l)) for q, rec, l in zip(queries, records, outq)
